@@ -154,6 +154,7 @@ func checkC01(ctx *Ctx, r *Report, tier string) {
 	ruleBB8(r, ctors)
 	ruleBB9(r, ctors)
 	ruleBB11(r, ctors)
+	ruleBB12(ctx, r)
 	// BB-10: the loft's box (hull of both profile boxes) holds only if the profiles are mixed
 	// with a factor in [0, 1] everywhere (rule shared with C02 M10)
 	checkLoftMix(ctx, r, "BB-10")
@@ -283,6 +284,55 @@ func ruleBB11(r *Report, ctors []bbCtor) {
 		r.check("BB-11", c.key+"|box-covers-the-outermost-end", c.fn.Pos(), bad == "" && tried == len(sets), fmt.Sprintf("%d of %d parameter sets evaluated: max(|a·start+k|, |a·end+k|) + d must be inside the box on every axis;%s", tried, len(sets), bad))
 	}
 	r.floor("BB-11", 1)
+}
+
+// ruleBB12: the voxel cache interpolates samples taken inside its box and reports that box. For
+// a point outside the box there is nothing to interpolate: an index computed from the raw point
+// reads corners that were never stored (the map yields 0) and the interpolation weights leave
+// [0, 1], so whole regions beyond the faces come out negative - material outside the box.
+// Decided on the closed form of VoxelSDF3.Evaluate: the keys of every lookup in the sample map
+// depend on the query point only through a clamp to the box (Clamp, or min/max with its bounds).
+func ruleBB12(ctx *Ctx, r *Report) {
+	fn := ctx.ssaFunc("sdf", "(*VoxelSDF3).Evaluate")
+	if fn == nil {
+		r.undecided("BB-12", "VoxelSDF3.Evaluate", 0, "not found")
+		return
+	}
+	ev := newEval(ctx, "Clamp")
+	ev.evalRoot(fn)
+	pn := paramName(fn, 1)
+	n, bad := 0, ""
+	for _, e := range ev.Events {
+		if e.Callee != "maplookup" || len(e.Args) < 2 {
+			continue
+		}
+		n++
+		m := map[string]*Term{}
+		leafTerms("", e.Args[1], m)
+		for k, t := range m {
+			raw := findSub(t, func(x *Term) bool { return x.Op == "a" && strings.HasPrefix(x.S, pn+".") })
+			// occurrences under a clamp are fine: remove them and look again
+			stripped := rebuild(t, func(x *Term) *Term {
+				if x.Op == "call" && (strings.HasSuffix(x.S, ".Clamp") || x.S == "Clamp" || x.S == "math.Max" || x.S == "math.Min") {
+					return K(0)
+				}
+				if x.Op == "a" && strings.Contains(x.S, "Clamp(") {
+					return K(0)
+				}
+				return nil
+			})
+			left := findSub(stripped, func(x *Term) bool { return x.Op == "a" && strings.HasPrefix(x.S, pn+".") })
+			if len(raw) > 0 && len(left) > 0 && !strings.Contains(bad, "index"+k) {
+				bad += fmt.Sprintf(" index%s of a sample lookup is computed from the unclamped query point: %s;", k, shortKey(t.Key(), 120))
+			}
+		}
+	}
+	if n == 0 {
+		r.undecided("BB-12", "VoxelSDF3.Evaluate", fn.Pos(), "no lookup in the sample map found")
+		return
+	}
+	r.check("BB-12", "VoxelSDF3.Evaluate|samples-are-read-for-a-point-of-the-box", fn.Pos(), bad == "", fmt.Sprintf("%d lookups;%s", n, bad))
+	r.floor("BB-12", 1)
 }
 
 // ruleBB8: the one shape documented as unbounded (its box is a placeholder point, its material is
